@@ -28,7 +28,7 @@ RULE = ("kinds: rel (a partially observed screen built with the real Screen cons
         "bit-for-bit with each other and the training arrays / single-effect lookup with the model); refuse (a negative / "
         "NaN / -inf / edge value planted in an observed row, or masked rows handed to add_observations directly - as the screen, or as the Plate-typed union of its plates); inner "
         "(_add_observations called directly, correspondence only); cli (batchie.cli.train_model.main in-process on both "
-        "screens).  Non-trivial: at least one masked and one observed row (rel/cli) or a planted value (refuse); distinct "
+        "screens; the training arrays are captured before AND after sampling.sample).  Non-trivial: at least one masked and one observed row (rel/cli) or a planted value (refuse); distinct "
         "by canonical case description.")
 THEOREMS = {
     "C04_train_noninterference_sdc": "two row lists that differ only in masked observation values give equal SparseDrugCombo training data (train_model path), every oracle / float32 cast",
@@ -119,6 +119,73 @@ EXPLANATION += c18_args.explanation(["get_args", "cmd"], "train_model.get_args a
 
 THEOREMS.update(c18_args.parser_theorems('C04', {'train_model': ['fields', 'dests_derived', 'dests_distinct', 'seed', 'coordinates', 'params']}))
 EXPLANATION += c18_args.parser_explanation(['train_model'])
+
+# ---- gap round: the downstream clause as theorems, the command-line steps relationally ----
+RULE += ("  Added: rel with selection through KPerSamplePlatePolicy(k = 1..3) on screens whose hidden plates hold one sample each "
+         "(batch among the hidden plates); cli with a NaN / negative / -inf value planted on an OBSERVED plate (train_model.main must "
+         "refuse as add_observations does); pipeline (both screens through train_model.main -> calculate_distance_matrix.main for "
+         "every one of 1..3 chunks -> calculate_scores.main for every one of 1..3 chunks, GaussianDBALScorer / SizeScorer, optional "
+         "batch of hidden plates -> select_next_plate.main without a policy or with KPerSamplePlatePolicy k = 1..2; files only, "
+         "in-process, both shipped MCMC models - two thirds SparseDrugComboInteraction - on screens where a still-hidden plate "
+         "carries replicates of single-agent wells; thetas, dense distance matrix, per-chunk scores and the selected-plate file "
+         "compared byte for byte between the two runs, the plates scored per chunk and the selected plate with the model).")
+THEOREMS.update({
+    "C04_downstream_views_factor": "what score_chunk / select_next_plate (rows: plate id, mask bit, sample id, treatment ids), KPerSamplePlatePolicy (plates: id, sample ids, is_observed), the predictions (sample id, treatment ids) and training (subset_observed) read of a screen are functions of downstream_input",
+    "C04_loop_noninterference": "one whole iteration composed of the stage MODELS (train_sdc -> Gibbs.mcmc_step sweeps against recorded draws -> DistMat.pipeline over any prediction function / metric -> Scores.score_chunk per chunk, save, load, concat, any scorer of (samples, matrix, handed plates) -> Scores.select_next or Policy.select_next k): posterior samples, dense distance matrix, score holder and selected plate are equal for two screens that differ only behind the mask, any chunk counts / orders / batch",
+    "C04_loop_reads_projection": "that iteration is literally a function of downstream_input (training through its observed part)",
+    "C04_loop_thetas_from_observed": "the posterior samples are sweeps on exactly the documented training trips of the observed rows (sampler data = columns of train_sdc's result)",
+    "C04_source_train_stage": "the translated add_observations around the translated SparseDrugCombo._add_observations on a fresh object, handed subset_observed (train_model.main's call) = train_sdc",
+    "C04_source_train_stage_interaction": "the same for SparseDrugComboInteraction: (single-effect lookup, wrapped object) after the translated training call = train_int with all repair switches true",
+    "C04_source_train_stage_interaction_noninterference": "... equal for two screens that differ only behind the mask: the interaction sampler (its blocks read the wrapped lists) and predict_viability (the lookup frozen at training) start from equal inputs",
+    "C04_source_thetas_noninterference": "the translated mcmc_step (Generated/SrcGibbs.v) with ANY block runner that is handed the data the translated training stored (C08's translated blocks are one), any recorded draws: equal posterior samples",
+    "C04_source_thetas_data": "... and that data is gibbs_data (train_sdc rows)",
+    "C04_source_distance_noninterference": "C07's composition of the translated calculate_pairwise_distance_matrix_on_predictions / save / load / concat / to_dense, predictions any function of (sample, row ids): equal dense matrices, any chunk count / order",
+    "C04_source_scores_noninterference": "translated score_chunk per chunk + file round trip + translated ChunkedScoresHolder.concat, any scorer / chunk count / order / batch: equal holders",
+    "C04_source_scores_stage": "that composition = the scores stage of the model iteration (through C06's links)",
+    "C04_source_select_noninterference": "translated select_next_plate (C06), no policy or any policy function: equal selected plate",
+    "C04_source_select_stage": "... = Scores.select_next on the projection",
+    "C04_source_select_k_noninterference": "translated select_next_plate in C16's vocabulary with KPerSamplePlatePolicy(k) (Plate = id + sample ids of its rows, is_observed = all mask bits): equal selected plate",
+    "C04_source_loop_noninterference": "the whole iteration composed of the TRANSLATED functions: equal (samples, matrix, holder, selected plate)",
+    "C04_source_cli_train_model_noninterference": "the translated train_model.main over two file systems whose screens differ only behind the mask writes the same thetas - any model class, sampler, holder; ExperimentSpace.from_screen reading ids",
+    "C04_source_cli_train_model_sdc": "with SparseDrugCombo (translated add_observations) what sampling.sample is handed holds exactly train_sdc of the loaded screen",
+    "C04_source_cli_calculate_distance_matrix_noninterference": "the translated calculate_distance_matrix.main (library call = the translated calculate_pairwise_distance_matrix_on_predictions) writes the same chunk for both file systems",
+    "C04_source_cli_calculate_scores_noninterference": "the translated calculate_scores.main over C06's library record (translated score_chunk) writes the same holder",
+    "C04_source_cli_select_next_plate_noninterference": "the translated select_next_plate.main over C06's library record (translated select_next_plate / concat) writes the same plate id",
+})
+ASSUMPTIONS.append("downstream theorems: a posterior sample's prediction is ANY function of (sample, the rows' sample and treatment ids) - true of every shipped predict_* by its signature (C09 links them); the command-line theorems read Screen.load_h5 as a path -> id-level rows map and ExperimentSpace.from_screen as a function of the ids; a ScreenSubset is the list of its rows (so a subset's view of its PARENT's single_treatment_effects table is outside the model: see the known finding below)")
+EXPLANATION += ("  DOWNSTREAM CLAUSE (gap round): Model/Downstream.v maps downstream_input into the input types of the stage models of "
+                "C06 (Scores.screen), C16 (Policy.splate), C07 / C09 (row ids) and C08 (Gibbs.data), none of which has a place for an "
+                "observation value of a masked row; Proofs/C04Down.v composes the stage models into one loop iteration and proves it blind to "
+                "masked values; Proofs/C04DownSrc.v states the same of the TRANSLATED score_chunk, select_next_plate (C06 and, with "
+                "KPerSamplePlatePolicy, C16 vocabulary), ChunkedScoresHolder.concat, the C07 distance pipeline, the translated mcmc_step "
+                "(any block runner given the stored data) after the translated training, and of the four translated main() functions over "
+                "file systems (path -> rows) that differ only behind the mask.  These import the C06 / C07 / C16 link proofs: a refused or "
+                "changed translation of one of those functions now also breaks C04's obligation (intended: the clause is about them).  "
+                "Wire op 4 (Run/RunC04.v): the model's score_chunk on the projection (plates handed to the scorer per chunk) and its "
+                "selection on the implementation's scores, compared in the pipeline kind with what calculate_scores.main / "
+                "select_next_plate.main wrote. ")
+
+RULE += ("  grid (ComboGridFactorModel, the third shipped BayesianModel subclass: both screens trained through subset_observed + "
+         "add_observations, the six training arrays compared bit for bit between the runs, with the per-row documentation "
+         "(sample id, drug ids with single agents in slot 1, clip(y, 0, 1)) and (sample id, y) with the model; whole screen handed "
+         "over; _add_observations directly; the observed rows in pieces; a negative / NaN / -inf / edge value planted on an observed "
+         "row); view (every public array attribute of subset_observed() on both screens, single_treatment_effects with the model).")
+THEOREMS.update({
+    "C04_model_is_source_grid_add_observations": "the translation of the whole method ComboGridFactorModel._add_observations (>= 0 check, unpack_data(use_mask=True) as one primitive = row-wise over the rows with mask by ANY per-row function of sample id and treatment ids, six np.concatenate, np.clip(observations[mask], 0.0, 1.0)) equals the model grid_inner on the object holding any training entries",
+    "C04_model_is_source_grid_add": "translated add_observations around it = grid_add",
+    "C04_train_noninterference_grid": "two row lists that differ only in masked values give equal grid-model training arrays",
+    "C04_trained_exactly_once_grid": "grid model: one entry per observed row in order = (its unpacked ids / log concentrations, clip(y, 0, 1)); accepted whenever no observed value is negative or NaN",
+    "C04_refuses_grid": "grid model: a masked row => Err 1; a negative or NaN observation => Err",
+    "C04_handed_view_single_effects_refuted": "AS CODED the single_treatment_effects attribute of subset_observed() depends on a masked value (witness: observed single-agent well 0.5, masked replicate 0.5 / 1 -> 0.5 / 0.75)",
+    "C04_handed_view_single_effects_repaired": "computed from the observed rows only the attribute is equal for screens that differ only behind the mask",
+})
+EXPLANATION += ("  ComboGridFactorModel is variational, i.e. outside the quantifier's `every shipped MCMC model`, but the statement says `each "
+                "shipped model` and it is a BayesianModel subclass selectable with --model: its _add_observations is linked "
+                "(C04_GRID_ADD -> Generated/SrcTrainGrid.v; TRUSTED primitive: grid_helper.unpack_data(use_mask=True) is row-wise over "
+                "the rows with mask and reads a row's sample id and treatment names / doses only - checked per row on the implementation "
+                "by the grid kind) and the three clauses are proved and run for it; it satisfies them today.  HANDED VIEW: the rows of "
+                "subset_observed() are identical, its lazily computed attribute single_treatment_effects is not (known finding "
+                "handed-view-single_treatment_effects; no shipped model reads it, so nothing downstream differs). ")
 
 SDC = "sdc"
 INT = "interaction"
@@ -307,6 +374,30 @@ def tripwire():
             setattr(cls, "observations", p)
 
 
+@contextlib.contextmanager
+def quiet_logs():
+    """batchie's warnings (`No eligible plates remaining`) would go to stderr through logging's last-resort handler"""
+    import logging
+    prev = logging.root.manager.disable
+    logging.disable(logging.CRITICAL)
+    try:
+        yield
+    finally:
+        logging.disable(prev)
+
+
+def batch_ids(screen, batch):
+    """a batch given as plate ids (older cases) or as plate names (turned into the ids of this screen)"""
+    out = []
+    for b in batch:
+        if isinstance(b, str):
+            ids = sorted({int(i) for i, n in zip(screen.plate_ids, screen.plate_names) if str(n) == b})
+            out.extend(ids)
+        else:
+            out.append(int(b))
+    return out
+
+
 def downstream(model, screen, cfg):
     """train on the observed subset, sample, distance matrix, scores, selection.
     Returns an ordered list of (stage, fingerprint); a stage that raises ends the list."""
@@ -347,7 +438,7 @@ def downstream(model, screen, cfg):
                     stage = "scores"
                     scorer = GaussianDBALScorer(max_chunk=cfg["max_chunk"], max_triples=cfg["max_triples"]) if cfg["scorer"] == "dbal" else SizeScorer()
                     ns = cfg["n_chunks_s"]
-                    batch = list(cfg["batch"])
+                    batch = batch_ids(screen, cfg["batch"])
                     srng = np.random.default_rng(cfg["seed"] + 2)
                     hs = [score_chunk(scorer, th, screen, dm, rng=srng, n_chunks=ns, chunk_index=k,
                                       batch_plate_ids=(batch if batch or cfg["batch_list"] else None)) for k in range(ns)]
@@ -355,7 +446,12 @@ def downstream(model, screen, cfg):
                     out.append(("scores", repr(([fhex(x) for x in h.scores.tolist()], [int(x) for x in h.plate_ids.tolist()]))))
                     stage = "selection"
                     if len(h.plate_ids):
-                        p = select_next_plate(h, screen, None, batch_plate_ids=batch, rng=np.random.default_rng(cfg["seed"] + 3))
+                        policy = None
+                        if cfg.get("policy") is not None:
+                            from batchie.policies.k_per_sample import KPerSamplePlatePolicy
+                            policy = KPerSamplePlatePolicy(k=int(cfg["policy"]))
+                        with quiet_logs():
+                            p = select_next_plate(h, screen, policy, batch_plate_ids=batch, rng=np.random.default_rng(cfg["seed"] + 3))
                         out.append(("selection", repr(None if p is None else int(p.plate_id))))
                     else:
                         out.append(("selection", "no-scores"))
@@ -499,9 +595,12 @@ GOOD = [0.0, 0.25, 0.5, 1.0, 0.125, 0.75, 0.3, 0.9, 0.011, 0.995, 2.0 ** -30, 0.
 REPL = ["nan", -3.0, 1e300, 0.0, 1.0, 0.7, "inf", "-inf", -0.0, 5e-324, -1e-300, 2.5]
 
 
-def gen_structured(rng, tier):
+def gen_structured(rng, tier, single_sample_plates=False, hidden_single=False):
     """plate p0: observed single-agent rows for every sample x treatment; other plates: combinations,
-    some single-agent and all-control rows; each plate observed or not as a whole."""
+    some single-agent and all-control rows; each plate observed or not as a whole.
+    single_sample_plates: every plate but p0 holds rows of one sample (what KPerSamplePlatePolicy accepts);
+    hidden_single: at least one still-hidden plate carries a replicate of a single-agent well of p0 (a masked value that a
+    single-effect table computed from ALL wells would average in)."""
     ctrl = rng.choice(["control", "control", ""])
     samples = rng.sample(["x", "y", "z", "é"], rng.randint(1, 3))
     treats = rng.sample([["a", 1.0], ["a", 2.0], ["b", 1.0], ["c", 0.5], ["d", 3.0]], rng.randint(2, 4))
@@ -528,8 +627,9 @@ def gen_structured(rng, tier):
         observed[rng.randrange(nplates)] = False
     for k in range(nplates):
         p = "p%d" % (k + 1)
+        ps = rng.choice(samples) if single_sample_plates else None
         for _ in range(rng.randint(1, 4)):
-            s = rng.choice(samples)
+            s = ps if single_sample_plates else rng.choice(samples)
             kind = rng.random()
             if kind < 0.7:
                 a, b = rng.sample(treats, 2) if rng.random() < 0.9 else [treats[0], treats[0]]
@@ -540,6 +640,13 @@ def gen_structured(rng, tier):
                 t = [rng.choice(treats), cname]
                 rng.shuffle(t)
             rows.append(dict(s=s, p=p, t=t, o=val(), m=observed[k], r=rng.choice(REPL)))
+    if hidden_single:
+        hidden = [k for k in range(nplates) if not observed[k]]
+        for k in rng.sample(hidden, rng.randint(1, min(2, len(hidden)))):
+            p = "p%d" % (k + 1)
+            on = [r["s"] for r in rows if r["p"] == p]
+            s = on[0] if (single_sample_plates and on) else rng.choice(samples)
+            rows.append(dict(single(s, rng.choice(treats), p, False), r=rng.choice([0.7, 0.05, "nan", 2.5, -3.0, 1.0, 0.0])))
     if rng.random() < 0.5:
         rng.shuffle(rows)
     return dict(rows=rows, arity=2, ctrl=ctrl, obs_given=True, mask_given=True, tmap=None, smap=None)
@@ -567,6 +674,14 @@ def gen_cfg(rng, sd):
                 n_chunks_s=rng.choice([1, 1, 2, 3, len(unobs) + 1]), batch=batch, batch_list=rng.random() < 0.3,
                 scorer=rng.choice(["dbal", "dbal", "size"]), sigmoid=rng.random() < 0.5,
                 max_chunk=rng.choice([1, 2, 50]), max_triples=rng.choice([1, 3, 5000]))
+
+
+def _hidden_batch(rng, sd):
+    """0..2 NAMES of still-hidden plates, leaving at least one hidden plate as a candidate (run() turns names into ids)"""
+    hidden = sorted({r["p"] for r in sd["rows"] if not r["m"]})
+    if len(hidden) < 2 or rng.random() < 0.4:
+        return []
+    return sorted(rng.sample(hidden, rng.randint(1, min(2, len(hidden) - 1))))
 
 
 def gen(rng, tier):
@@ -614,6 +729,47 @@ def gen(rng, tier):
         yield dict(kind="cli", model=rng.choice([SDC, INT]), screen=sd, seed=rng.randint(0, 1000))
     import c18_args
     yield from c18_args.gen_get_args(rng, tier, only="train_model")
+    # ---- added by the gap round (after the older kinds, so their cases stay what they were) ----
+    # the command line entry point on a screen with a NaN / negative value on an OBSERVED plate: main() must refuse as
+    # add_observations does (raise, no thetas written)
+    for i in range(10 if q else 80):
+        sd = gen_structured(rng, tier)
+        cand = [j for j, r in enumerate(sd["rows"]) if r["m"]]
+        planted = rng.choice(["nan", "nan", -0.5, -3.0, "-inf", -1e-300])
+        sd["rows"][rng.choice(cand)]["o"] = planted
+        yield dict(kind="cli", model=rng.choice([SDC, INT]), screen=sd, seed=rng.randint(0, 1000), planted=planted)
+    # selection through KPerSamplePlatePolicy(k), in-process (plates of one sample each, batch among the hidden plates)
+    for i in range(40 if q else 400):
+        sd = gen_structured(rng, tier, single_sample_plates=rng.random() < 0.85, hidden_single=rng.random() < 0.5)
+        cfg = gen_cfg(rng, sd)
+        cfg["policy"] = rng.choice([1, 1, 2, 3])
+        cfg["batch"] = _hidden_batch(rng, sd)
+        yield dict(kind="rel", model=rng.choice([SDC, INT]), screen=sd, cfg=cfg)
+    # the third shipped BayesianModel subclass, ComboGridFactorModel (variational): relational training, refusal, pieces
+    for i in range(60 if q else 500):
+        sd = gen_structured(rng, tier) if rng.random() < 0.8 else gen_unstructured(rng, tier)
+        mode = rng.choice(["rel", "rel", "refuse", "whole"])
+        planted = None
+        if mode == "refuse":
+            cand = [j for j, r in enumerate(sd["rows"]) if r["m"]] or [0]
+            planted = rng.choice([-0.5, -3.0, -1e-300, -5e-324, "nan", "nan", "-inf", -0.0, "inf", 1e300, 2.0])
+            sd["rows"][rng.choice(cand)]["o"] = planted
+        yield dict(kind="grid", mode=mode, screen=sd, planted=planted)
+    # every public array attribute of the object handed to the model (screen.subset_observed()) and of the plates handed to the
+    # scorer, on both screens
+    for i in range(30 if q else 300):
+        sd = gen_structured(rng, tier, hidden_single=rng.random() < 0.6)
+        yield dict(kind="view", screen=sd)
+    # the four command-line steps one after the other on both screens: train_model.main -> calculate_distance_matrix.main
+    # (1..3 chunks) -> calculate_scores.main (1..3 chunks) -> select_next_plate.main (no policy / KPerSamplePlatePolicy)
+    for i in range(24 if q else 200):
+        single = rng.random() < 0.6
+        sd = gen_structured(rng, tier, single_sample_plates=single, hidden_single=rng.random() < 0.8)
+        yield dict(kind="pipeline", model=[INT, SDC, INT][i % 3], screen=sd, seed=rng.randint(0, 1000),
+                   cfg=dict(n_chunks_d=rng.choice([1, 2, 3]), n_chunks_s=rng.choice([1, 2, 3]),
+                            scorer=rng.choice(["GaussianDBALScorer", "GaussianDBALScorer", "SizeScorer"]),
+                            batch=_hidden_batch(rng, sd) if rng.random() < 0.5 else [],
+                            policy=(rng.choice([1, 2]) if single and rng.random() < 0.7 else None)))
 
 
 # --------------------------------------------------------------------------- run
@@ -739,6 +895,10 @@ def run(desc):
         import c18_args
         return c18_args.run_case(desc)
     kind = desc["kind"]
+    if kind == "grid":
+        return run_grid(desc)
+    if kind == "view":
+        return run_view(desc)
     model = desc["model"]
     flags = impl_flags()
     repaired = [True, True, True]
@@ -750,6 +910,63 @@ def run(desc):
     feats = [kind, model] + row_features(sa) + (["arity-%d" % arity] if arity != 2 else [])
     n_masked = int((~sa.observation_mask).sum())
     n_obs = int(sa.observation_mask.sum())
+
+    if kind == "pipeline":
+        sb = screenlib.build(concrete(sd, True))
+        cfg = desc["cfg"]
+        (da, fa), (db, fb) = pipeline_run(model, sa, cfg, desc["seed"]), pipeline_run(model, sb, cfg, desc["seed"])
+        pred = None
+        if view_of(sa) != view_of(sb):
+            pred = "noninterference-ids: ids or mask differ between the two screens"
+        if pred is None:
+            for (sta, xa), (stb, xb) in zip(da, db):
+                if sta != stb or xa != xb:
+                    pred = "noninterference-pipeline-%s: the command-line steps give different %s for the two screens (%s / %s)" % (
+                        sta, sta, xa[:60], xb[:60])
+                    break
+            if pred is None and len(da) != len(db):
+                pred = "noninterference-pipeline-stages: one run stopped earlier than the other"
+        if pred is None:
+            for st, f in da:
+                if st == "observation-reads-downstream" and f != "0":
+                    pred = "downstream-reads-observations: the distance / scoring / selection commands read .observations %s time(s)" % f
+        feats += ["pipeline-" + (da[-1][0] + "-raised" if da[-1][1].startswith("raised") else "complete"), "scorer-" + cfg["scorer"],
+                  "policy-k%s" % cfg["policy"] if cfg.get("policy") is not None else "no-policy"] + (["batch"] if fa["batch"] else [])
+        feats += repl_features(sd) + (["trivial"] if n_masked == 0 or n_obs == 0 else [])
+        ra, rb = wire_rows(sa), wire_rows(sb)
+        complete = "raised" not in fa and "slots" in fa
+        slots = fa.get("slots", [])
+        nan_scores = any(math.isnan(v) for _, v in slots)
+        wire = [[2, ra, rb]]
+        if complete:
+            wire.append([4, ra, fa["batch"], cfg["n_chunks_s"], [] if cfg.get("policy") is None else [int(cfg["policy"])],
+                         [[p, 0 if math.isnan(v) else common.float_key(v)] for p, v in slots]])
+        impl = [view_of(sa), fa.get("chunks"), fa.get("selected")]
+
+        def cmpf(m, i):
+            if isinstance(m, str):
+                return "model driver failure: " + m
+            if m[0][0] != 1:
+                return "model: downstream_input differs between the two screens"
+            if m[0][1] != i[0]:
+                return "downstream_input: model %s impl %s" % (common.short(m[0][1]), common.short(i[0]))
+            if not complete:
+                return None
+            chunks, sel = m[1]
+            for k, c in enumerate(chunks):
+                if not common.is_ok(c):
+                    return "score chunk %d: model refuses (%s), calculate_scores.main wrote a file" % (k, common.short(c))
+                if [x[0] for x in c[1]] != i[1][k]:
+                    return "score chunk %d: model hands the scorer plates %s, the command scored %s" % (k, [x[0] for x in c[1]], i[1][k])
+            if nan_scores:
+                return None
+            if not common.is_ok(sel):
+                return "selection: model refuses (%s), select_next_plate.main wrote %r" % (common.short(sel), i[2])
+            want = "-1" if sel[1] == [] else str(sel[1][0])
+            if want != i[2]:
+                return "selection: model selects %s, select_next_plate.main wrote %r" % (want, i[2])
+            return None
+        return dict(wire=wire, impl=impl, pred=pred, features=feats, cmp=cmpf)
 
     if kind in ("rel", "cli"):
         sb = screenlib.build(concrete(sd, True))
@@ -788,11 +1005,20 @@ def run(desc):
             feats += ["scorer-" + desc["cfg"]["scorer"]] + (["batch"] if desc["cfg"]["batch"] else [])
         else:
             ca, cb = cli_run(model, sa, desc["seed"]), cli_run(model, sb, desc["seed"])
+            if desc.get("planted") is not None:
+                feats.append("cli-planted-" + ("nan" if math.isnan(fv(desc["planted"])) else "negative"))
+            neg, nan = has_bad([o for _, _, o in observed_rows(sa)])
+            if pred is None and (neg or nan) and isinstance(ca, dict):
+                pred = "cli-accepts-%s: train_model.main trained and wrote %d posterior sample(s) although an OBSERVED experiment holds a %s value (add_observations on the observed subset %s)" % (
+                    "nan" if nan else "negative", ca["thetas"].count("('W'") or 1, "NaN" if nan else "negative",
+                    "refuses it" if isinstance(ia, ImplError) else "accepts it too")
             if pred is None and ca != cb:
                 k = [x for x in ca if ca.get(x) != cb.get(x)] if isinstance(ca, dict) and isinstance(cb, dict) else ["status"]
                 pred = "noninterference-cli-%s: train_model.main differs between the two screens" % (k[0] if k else "status")
             if pred is None and isinstance(ca, dict) and ca["training"] != train_bits(model, ia):
                 pred = "cli-training-data: train_model.main trained on other data than subset_observed + add_observations"
+            if pred is None and isinstance(ca, dict) and ca.get("training_after") != ca["training"]:
+                pred = "cli-training-data-after-sampling: the model's training arrays after sampling.sample differ from those add_observations stored"
             if pred is None and not isinstance(ca, dict) and not isinstance(ia, ImplError):
                 pred = "cli-failed: train_model.main raised %r" % (ca,)
         # 2. a screen that still has masked rows is refused when handed over directly
@@ -885,6 +1111,225 @@ def run(desc):
     raise ValueError(kind)
 
 
+# --------------------------------------------------------------------------- the handed view
+
+VIEW_ATTRS = ["size", "sample_ids", "plate_ids", "treatment_ids", "sample_names", "plate_names", "treatment_names", "treatment_doses",
+              "observation_mask", "observations", "single_treatment_effects"]
+
+
+def _attr_bits(obj, name):
+    with warnings.catch_warnings():
+        warnings.simplefilter("ignore")
+        try:
+            with quiet_logs():
+                v = getattr(obj, name)
+        except Exception as e:  # noqa
+            return "raised %s" % type(e).__name__
+    if v is None:
+        return "None"
+    a = np.asarray(v)
+    if a.dtype.kind == "f":
+        return repr((a.shape, [fhex(x) for x in a.ravel().tolist()]))
+    return repr((a.shape, a.ravel().tolist()))
+
+
+def run_view(desc):
+    """'the data handed to the model': every public array attribute of subset_observed() - the object train_model.main hands to
+    add_observations - must be the same for the two screens; the same for the observed part of what the scorer is handed."""
+    sd = desc["screen"]
+    sa = impl_call(screenlib.build, concrete(sd, False))
+    if isinstance(sa, ImplError):
+        return dict(wire=None, impl=sa, pred=None, features=["trivial", "screen-rejected"])
+    sb = screenlib.build(concrete(sd, True))
+    va, vb = sa.subset_observed(), sb.subset_observed()
+    n_masked = int((~sa.observation_mask).sum())
+    feats = ["view"] + row_features(sa) + repl_features(sd)
+    pred = None
+    if (va is None) != (vb is None):
+        pred = "handed-view-presence: subset_observed() is None for one screen only"
+    elif va is not None:
+        diffs = [a for a in VIEW_ATTRS if _attr_bits(va, a) != _attr_bits(vb, a)]
+        others = [a for a in diffs if a != "single_treatment_effects"]
+        if others:
+            pred = "handed-view-%s: attribute %s of subset_observed() differs between the two screens" % (others[0], others[0])
+        elif diffs:
+            pred = ("handed-view-single_treatment_effects: subset_observed().single_treatment_effects differs between the two screens "
+                    "(%s / %s): the parent's table is computed from all rows, masked wells included" % (
+                        _attr_bits(va, diffs[0])[:70], _attr_bits(vb, diffs[0])[:70]))
+            feats.append("view-single-effects-differ")
+    ra = wire_rows(sa)
+    ste = None
+    if va is not None:
+        with warnings.catch_warnings():
+            warnings.simplefilter("ignore")
+            with quiet_logs():
+                t = va.single_treatment_effects
+        ste = None if t is None else [[float(x) for x in row] for row in np.asarray(t).tolist()]
+    wire = [[6, sd["arity"], ra], [2, ra, wire_rows(sb)]]
+
+    def cmpf(m, i):
+        if isinstance(m, str):
+            return "model driver failure: " + m
+        if va is None:
+            return None
+        coded = m[0][0]
+        if coded == []:
+            return None if i is None else "single_treatment_effects: model None (KeyError), implementation returned a table"
+        if i is None:
+            return "single_treatment_effects: implementation None, model returned a table"
+        tab = coded[0]
+        if len(tab) != len(i):
+            return "single_treatment_effects: %d rows in the model, %d in the implementation" % (len(tab), len(i))
+        for k, (a, b) in enumerate(zip(tab, i)):
+            if len(a) != len(b) or not all(oval_close(x, y, 1e-12) for x, y in zip(a, b)):
+                return "single_treatment_effects row %d: model %s impl %s" % (k, a, b)
+        if m[1][0] != 1:
+            return "model: downstream_input differs between the two screens"
+        return None
+    return dict(wire=wire, impl=ste, pred=pred, features=feats + (["trivial"] if n_masked == 0 or va is None else []), cmp=cmpf)
+
+
+# --------------------------------------------------------------------------- ComboGridFactorModel
+
+GRID = "grid"
+
+
+def grid_model(screen):
+    from batchie.data import ExperimentSpace
+    from batchie.models.grid_combo import ComboGridFactorModel
+    return ComboGridFactorModel(experiment_space=ExperimentSpace.from_screen(screen), n_unique_samples=int(screen.n_unique_samples),
+                                unique_drug_names=np.unique(screen.treatment_names), log_conc_range=(-3.0, 3.0), n_grid=4,
+                                n_embedding_dimensions=2, n_sigma_embedding_dimensions=2)
+
+
+def grid_training(m):
+    cols = [m.sample_ids, m.drug_ids_1, m.drug_ids_2, m.log_concs_1, m.log_concs_2, m.y]
+    n = m.n_obs()
+    if any(len(c) != n for c in cols):
+        raise AssertionError("grid training arrays of different lengths")
+    return [[int(a), int(b), int(c), float(d), float(e), float(y)] for a, b, c, d, e, y in zip(*cols)]
+
+
+def grid_result(screen, via):
+    def go():
+        m = grid_model(screen)
+        feed(m, screen, via)
+        return grid_training(m)
+    return impl_call(go)
+
+
+def grid_bits(res):
+    return "raised %s" % res.cls if isinstance(res, ImplError) else repr([[a, b, c, fhex(d), fhex(e), fhex(y)] for a, b, c, d, e, y in res])
+
+
+def grid_doc_rows(screen, m):
+    """what the class documents per observed row, computed here row by row: (sample id, drug id 1, drug id 2, clip(y, 0, 1)); a
+    treatment is the control when it is named so or its dose has no finite log10 > -inf; single agents sit in slot 1"""
+    out = []
+    idx = dict(m.drugname2idx)
+    for i in range(screen.size):
+        if not bool(screen.observation_mask[i]):
+            continue
+        ids = []
+        for nm, dose in zip(screen.treatment_names[i][:2], screen.treatment_doses[i][:2]):
+            ctrl = (nm == screen.control_treatment_name) or not (float(dose) > 0)
+            ids.append(-1 if ctrl else int(idx[nm]))
+        if ids[0] < 0:
+            ids = [ids[1], -1]
+        o = float(screen.observations[i])
+        out.append((int(screen.sample_ids[i]), ids[0], ids[1], min(max(o, 0.0), 1.0)))
+    return out
+
+
+def run_grid(desc):
+    sd, mode = desc["screen"], desc["mode"]
+    sa = impl_call(screenlib.build, concrete(sd, False))
+    if isinstance(sa, ImplError):
+        return dict(wire=None, impl=sa, pred=None, features=["trivial", "screen-rejected"])
+    arity = sd["arity"]
+    feats = ["grid", "grid-" + mode] + row_features(sa) + (["arity-%d" % arity] if arity != 2 else [])
+    n_masked = int((~sa.observation_mask).sum())
+    n_obs = int(sa.observation_mask.sum())
+    sb = screenlib.build(concrete(sd, True))
+    ra, rb = wire_rows(sa), wire_rows(sb)
+    ia, ib = grid_result(sa, 1), grid_result(sb, 1)
+    iw = grid_result(sa, 0)
+    ii = grid_result(sa, 2)
+    pred = None
+    if grid_bits(ia) != grid_bits(ib):
+        pred = "noninterference-training-data: the grid model's training arrays differ between the two screens"
+    if pred is None and n_masked > 0 and not isinstance(iw, ImplError):
+        pred = "grid-accepts-masked-rows: add_observations accepted a screen with %d masked rows" % n_masked
+    obs = [o for _, _, o in observed_rows(sa)]
+    neg, nan = has_bad(obs)
+    raised = isinstance(ia, ImplError)
+    if pred is None and (neg or nan) and not raised:
+        pred = "grid-accepts-%s: a %s observation was accepted silently" % (("negative", "negative") if neg else ("nan", "NaN"))
+    if pred is None and not (neg or nan) and arity == 2:
+        if raised:
+            pred = "grid-refuses-valid-input: %s on observed rows without negative / NaN values" % ia.cls
+        else:
+            try:
+                doc = grid_doc_rows(sa, grid_model(sa))
+            except Exception as e:  # noqa
+                doc = None
+            got = [(t[0], t[1], t[2], t[5]) for t in ia]
+            if doc is not None and got != doc:
+                key = lambda x: tuple(x)
+                pred = ("grid-training-order-differs: same rows, different order" if sorted(got, key=key) == sorted(doc, key=key)
+                        else "grid-training-rows-differ: %d rows trained, %d observed; first difference %s" % (
+                            len(got), len(doc), next(((g, d) for g, d in zip(got, doc) if g != d), None)))
+    if pred is None and isinstance(ii, ImplError) and ii.cls == "AssertionError":
+        pred = "grid-training-arrays-inconsistent: after _add_observations on a screen with %d masked rows the six training arrays have different lengths (%s)" % (n_masked, ii.msg[:60])
+    if pred is None and not raised and n_obs >= 2:
+        ic = grid_result(sa, 3)
+        feats.append("fed-in-pieces")
+        if grid_bits(ic) != grid_bits(ia):
+            pred = "grid-piecewise-training-differs: the observed experiments handed over in consecutive pieces give another training state than in one call"
+    p = desc.get("planted")
+    if p is not None:
+        v = fv(p)
+        feats.append("planted-nan" if math.isnan(v) else "planted-negative" if v < 0 else "planted-edge")
+    feats += repl_features(sd) + (["trivial"] if (n_masked == 0 or n_obs == 0) and p is None else [])
+    wire = [[5, 1, ra], [5, 1, rb], [5, 0, ra], [5, 2, ra], [2, ra, rb]]
+    impl = [ia, ib, iw, ii, view_of(sa)]
+
+    def one(m, i, what):
+        ierr = isinstance(i, ImplError)
+        if common.is_err(m):
+            if not ierr:
+                return "%s: model refuses (tag %s), implementation accepted" % (what, m[1])
+            if m[1] == 1 and "masked" not in i.msg:
+                return "%s: model says masked-row refusal, implementation raised %r" % (what, i)
+            if m[1] == 2 and not (i.cls == "ValueError" and "non-negative" in i.msg):
+                return "%s: model says negative / NaN refusal, implementation raised %r" % (what, i)
+            return None
+        if not common.is_ok(m):
+            return "%s: model output is not a result: %s" % (what, common.short(m))
+        if ierr:
+            return None if (arity != 2 or i.cls == "KeyError") else "%s: implementation raised %r, model returned a value" % (what, i)
+        if len(m[1]) != len(i):
+            return "%s: %d training rows in the model, %d in the implementation" % (what, len(m[1]), len(i))
+        for k, (a, b) in enumerate(zip(m[1], i)):
+            if a[0] != b[0]:
+                return "%s: training row %d sample id: model %s impl %s" % (what, k, a[0], b[0])
+            if not oval_close(a[1], b[5], 0.0):
+                return "%s: training row %d y: model %s impl %r" % (what, k, a[1], b[5])
+        return None
+
+    def cmpf(m, i):
+        if isinstance(m, str):
+            return "model driver failure: " + m
+        for k, what in enumerate(["grid train A", "grid train B", "grid add_observations(whole screen)", "grid _add_observations"]):
+            d = one(m[k], i[k], what)
+            if d:
+                return d
+        if m[4][0] != 1:
+            return "model: downstream_input differs between the two screens"
+        return None
+    return dict(wire=wire, impl=impl, pred=pred, features=feats, cmp=cmpf)
+
+
 def cli_run(model, screen, seed):
     """batchie.cli.train_model.main() in-process; returns dict(training=..., thetas=...) or ImplError"""
     from batchie.cli import train_model
@@ -901,7 +1346,12 @@ def cli_run(model, screen, seed):
                                           training_of(model) if type(model).__name__ == "SparseDrugCombo"
                                           else [lookup_of(model), training_of(model)])
         captured["n_obs"] = model.n_obs()
-        return orig_sample(model=model, **kw)
+        r = orig_sample(model=model, **kw)
+        # ... and after sampling (reset_model / step must not re-create, duplicate or drop training rows: `each exactly once`)
+        captured["training_after"] = train_bits(SDC if type(model).__name__ == "SparseDrugCombo" else INT,
+                                                training_of(model) if type(model).__name__ == "SparseDrugCombo"
+                                                else [lookup_of(model), training_of(model)])
+        return r
 
     def go():
         data = os.path.join(tmp, "data.h5")
@@ -920,13 +1370,96 @@ def cli_run(model, screen, seed):
             warnings.simplefilter("ignore")
             train_model.main()
         th = ThetaHolder.load_h5(out)
-        return dict(training=captured.get("training"), n_obs=captured.get("n_obs"),
+        return dict(training=captured.get("training"), n_obs=captured.get("n_obs"), training_after=captured.get("training_after"),
                     thetas=repr([theta_bytes(th.get_theta(i)) for i in range(th.n_thetas)]))
     try:
         r = impl_call(go)
     finally:
         shutil.rmtree(tmp, ignore_errors=True)
     return r if isinstance(r, dict) else repr(r)
+
+
+def pipeline_run(model, screen, cfg, seed):
+    """The four command-line steps in-process, each through its main() and files only: train_model -> calculate_distance_matrix
+    (every chunk) -> calculate_scores (every chunk) -> select_next_plate.  Randomness pinned as in cli_run (numpy's global generator
+    and the unseeded default_rng() of fast_mvn during training; the other steps derive theirs from --seed).
+    Returns (stages, info): stages = ordered [(stage, fingerprint)], ending at the first stage that raises; info = what the model
+    is compared with (plate ids per score chunk, the slots, the selected id, the batch ids)."""
+    from batchie.cli import calculate_distance_matrix as m_dist
+    from batchie.cli import calculate_scores as m_scores
+    from batchie.cli import select_next_plate as m_select
+    from batchie.cli import train_model as m_train
+    from batchie.core import ThetaHolder
+    from batchie.distance_calculation import ChunkedDistanceMatrix
+    from batchie.fast_mvn import sample_mvn_from_precision
+    from batchie.scoring.main import ChunkedScoresHolder
+
+    os.makedirs(common.WORK, exist_ok=True)
+    tmp = tempfile.mkdtemp(dir=common.WORK)
+    out, info = [], dict(batch=batch_ids(screen, cfg["batch"]))
+    stage = "train"
+
+    def call(mod, argv, *ctx):
+        with contextlib.ExitStack() as st:
+            st.enter_context(mock.patch.object(sys, "argv", [argv[0]] + [str(a) for a in argv[1:]]))
+            st.enter_context(mock.patch.object(mod.log_config, "configure_logging", lambda args: None))
+            for c in ctx:
+                st.enter_context(c)
+            st.enter_context(warnings.catch_warnings())
+            warnings.simplefilter("ignore")
+            st.enter_context(np.errstate(all="ignore"))
+            st.enter_context(quiet_logs())
+            mod.main()
+
+    try:
+        data = os.path.join(tmp, "data.h5")
+        screen.save_h5(data)
+        thetas = os.path.join(tmp, "thetas.h5")
+        np.random.seed(seed)
+        rng = np.random.default_rng(seed + 1)
+        call(m_train, ["train_model", "--model", _cls(model).__name__, "--model-param", "n_embedding_dimensions=2", "--n-burnin", 1,
+                       "--n-samples", 3, "--thin", 1, "--n-chains", 1, "--chain-index", 0, "--seed", seed, "--data", data,
+                       "--output", thetas],
+             mock.patch.object(_mod(model), "sample_mvn_from_precision", functools.partial(sample_mvn_from_precision, rng=rng)))
+        th = ThetaHolder.load_h5(thetas)
+        out.append(("thetas", repr([theta_bytes(th.get_theta(i)) for i in range(th.n_thetas)])))
+        with tripwire() as reads:
+            stage = "distance"
+            nd = cfg["n_chunks_d"]
+            dfiles = [os.path.join(tmp, "dist%d.h5" % k) for k in range(nd)]
+            for k in range(nd):
+                call(m_dist, ["calculate_distance_matrix", "--data", data, "--thetas", thetas, "--distance-metric", "MSEDistance",
+                              "--n-chunks", nd, "--chunk-index", k, "--output", dfiles[k]])
+            dm = ChunkedDistanceMatrix.concat([ChunkedDistanceMatrix.load(f) for f in dfiles])
+            out.append(("distance", dm.to_dense().tobytes().hex()))
+            stage = "scores"
+            ns = cfg["n_chunks_s"]
+            sfiles = [os.path.join(tmp, "scores%d.h5" % k) for k in range(ns)]
+            for k in range(ns):
+                call(m_scores, ["calculate_scores", "--data", data, "--thetas", thetas, "--distance-matrix"] + dfiles +
+                     ["--scorer", cfg["scorer"], "--n-chunks", ns, "--chunk-index", k, "--seed", seed + 2, "--output", sfiles[k]] +
+                     (["--batch-plate-ids"] + info["batch"] if info["batch"] else []))
+            hs = [ChunkedScoresHolder.load_h5(f) for f in sfiles]
+            info["chunks"] = [[int(x) for x in h.plate_ids.tolist()] for h in hs]
+            info["slots"] = [[int(p), float(v)] for h in hs for p, v in zip(h.plate_ids.tolist(), h.scores.tolist())]
+            out.append(("scores", repr([([fhex(x) for x in h.scores.tolist()], [int(x) for x in h.plate_ids.tolist()]) for h in hs])))
+            stage = "selection"
+            sel = os.path.join(tmp, "selected.txt")
+            call(m_select, ["select_next_plate", "--data", data, "--scores"] + sfiles + ["--seed", seed + 3, "--output", sel] +
+                 (["--policy", "KPerSamplePlatePolicy", "--policy-param", "k=%d" % cfg["policy"]] if cfg.get("policy") is not None else []) +
+                 (["--batch-plate-id"] + info["batch"] if info["batch"] else []))
+            txt = open(sel).read().strip()
+            info["selected"] = txt
+            out.append(("selection", txt))
+        out.append(("observation-reads-downstream", repr(reads[0])))
+    except BaseException as e:  # noqa - SystemExit of argparse included
+        if isinstance(e, (KeyboardInterrupt, common.CaseTimeout)):
+            raise
+        out.append((stage, "raised %s: %s" % (type(e).__name__, str(e)[:80])))
+        info["raised"] = stage
+    finally:
+        shutil.rmtree(tmp, ignore_errors=True)
+    return out, info
 
 
 def signature(desc, res):
